@@ -127,7 +127,7 @@ def latmio_dir_connected(R, itr, D=None, seed=None):
                         break
             att += 1
 
-    Rlatt = R[np.ix_(ind_rp[::-1], ind_rp[::-1])]  # reverse random permutation
+    Rlatt = R[np.ix_(np.argsort(ind_rp), np.argsort(ind_rp))]  # reverse random permutation
 
     return Rlatt, R, ind_rp, eff
 
@@ -224,7 +224,7 @@ def latmio_dir(R, itr, D=None, seed=None):
                     break
             att += 1
 
-    Rlatt = R[np.ix_(ind_rp[::-1], ind_rp[::-1])]  # reverse random permutation
+    Rlatt = R[np.ix_(np.argsort(ind_rp), np.argsort(ind_rp))]  # reverse random permutation
 
     return Rlatt, R, ind_rp, eff
 
@@ -363,7 +363,7 @@ def latmio_und_connected(R, itr, D=None, seed=None):
                         break
             att += 1
 
-    Rlatt = R[np.ix_(ind_rp[::-1], ind_rp[::-1])]
+    Rlatt = R[np.ix_(np.argsort(ind_rp), np.argsort(ind_rp))]
     return Rlatt, R, ind_rp, eff
 
 
@@ -470,7 +470,7 @@ def latmio_und(R, itr, D=None, seed=None):
                     break
             att += 1
 
-    Rlatt = R[np.ix_(ind_rp[::-1], ind_rp[::-1])]
+    Rlatt = R[np.ix_(np.argsort(ind_rp), np.argsort(ind_rp))]
     return Rlatt, R, ind_rp, eff
 
 
